@@ -861,6 +861,13 @@ func reachRegion1(fn *ssa.Function, from ssa.Instruction, target func(ssa.Instru
 		stopped := false
 		for i := it.start; i < len(it.b.Instrs) && !stopped; i++ {
 			in := it.b.Instrs[i]
+			if withFacts {
+				// constants kept in fields of a local struct (it is a copy of the queued item: later uses see the update)
+				if npf := memStep(it.pf, in); npf != it.pf {
+					it.pf = npf
+					curPath = npf
+				}
+			}
 			if ret, isRet := in.(*ssa.Return); isRet && cur != rg.Root {
 				// return of an expanded helper: continue after the call it was entered from
 				if n := len(it.stack); n > 0 {
